@@ -2,6 +2,17 @@ module verifharness
 
 go 1.22
 
-require github.com/uber-go/gopatch v0.0.0
+require (
+	github.com/pkg/diff v0.0.0-20210226163009-20ebb0f2a09e
+	github.com/uber-go/gopatch v0.0.0
+	go.uber.org/multierr v1.11.0
+	golang.org/x/tools v0.24.0
+)
+
+require (
+	github.com/google/go-intervals v0.0.2 // indirect
+	golang.org/x/mod v0.20.0 // indirect
+	golang.org/x/sync v0.8.0 // indirect
+)
 
 replace github.com/uber-go/gopatch => /repo
